@@ -2,6 +2,7 @@ package modsim
 
 import (
 	"fmt"
+	"sort"
 	"strings"
 	"time"
 
@@ -13,6 +14,7 @@ import (
 type qIn struct {
 	Op   string
 	Task int
+	Busy string // start: tasks that were executing at some time since the previous start (",<id>;" each)
 }
 
 type qState struct {
@@ -53,12 +55,25 @@ var queueModel = porcupine.Model{
 			st.P = qDel(st.P, in.Task)
 			st.N = qDel(st.N, in.Task)
 		case "start":
-			h, ok := qHead(st.P)
-			if !ok {
-				h, ok = qHead(st.N)
-			}
-			if !ok || h != in.Task {
-				return false, st
+			for {
+				h, ok := qHead(st.P)
+				if !ok {
+					h, ok = qHead(st.N)
+				}
+				if !ok {
+					return false, st
+				}
+				if h != in.Task {
+					// The handler takes a task that is (still) executing off all queues and moves on; what
+					// becomes of such a submission is the subject of the nothing-lost clause, not of the order.
+					if qHas(in.Busy, h) {
+						st.P = qDel(st.P, h)
+						st.N = qDel(st.N, h)
+						continue
+					}
+					return false, st
+				}
+				break
 			}
 			st.P = qDel(st.P, in.Task)
 			st.N = qDel(st.N, in.Task)
@@ -92,7 +107,7 @@ func checkQueueOrder(s *taskState, p *TaskPlan, rc *simkit.RunCtx) {
 					cancelled[o.Task] = o.Ret
 				}
 			}
-			ops = append(ops, porcupine.Operation{ClientId: id % 8, Input: qIn{o.Op, o.Task}, Call: int64(o.Inv), Return: int64(o.Ret)})
+			ops = append(ops, porcupine.Operation{ClientId: id % 8, Input: qIn{o.Op, o.Task, ""}, Call: int64(o.Inv), Return: int64(o.Ret)})
 			id++
 		}
 	}
@@ -107,10 +122,47 @@ func checkQueueOrder(s *taskState, p *TaskPlan, rc *simkit.RunCtx) {
 			}
 		}
 	}
+	// A start is decided when the queue handler takes the task off the queue, between the moment it committed to
+	// the previous task and the moment it commits to this one (executing flag up), not when the function begins.
+	type startEv struct {
+		task   int
+		commit uint64
+	}
+	var starts []startEv
+	for i := range s.tasks {
+		n := 0
+		for _, e := range s.execs {
+			if e.Task == i {
+				n++
+			}
+		}
+		if n != len(s.commits[i]) {
+			rc.Probe("order-check-skipped-commit-mismatch")
+			return
+		}
+		for _, c := range s.commits[i] {
+			starts = append(starts, startEv{i, c})
+		}
+	}
+	sort.Slice(starts, func(a, b int) bool { return starts[a].commit < starts[b].commit })
 	var prev uint64
-	for _, e := range s.execs {
-		ops = append(ops, porcupine.Operation{ClientId: 9, Input: qIn{"start", e.Task}, Call: int64(prev), Return: int64(e.BeginSeq)})
-		prev = e.BeginSeq
+	for _, st := range starts {
+		busy := ""
+		for i := range s.tasks {
+			for k, c := range s.commits[i] {
+				rel := ^uint64(0)
+				if k < len(s.releases[i]) {
+					rel = s.releases[i][k]
+				}
+				if c < st.commit && rel > prev && i != st.task {
+					busy += fmt.Sprintf(",%d;", i)
+					break
+				}
+			}
+		}
+		// (a task is also in its own way: an entry made after its previous commit is dropped while it still executes)
+		ops = append(ops, porcupine.Operation{ClientId: 9, Input: qIn{"start", st.task, busy}, Call: int64(prev), Return: int64(st.commit)})
+		prev = st.commit
 	}
 	if len(ops) > 40 {
 		rc.Probe("order-check-skipped-long")
